@@ -63,6 +63,7 @@ static unsigned g_gen_calls, g_data_calls, g_valid_calls, g_last_valid_result, g
 static unsigned g_data_r[NATT];
 static int g_data_ip[NATT][LEV_MAX];
 static unsigned g_cmp_calls;
+static unsigned g_valid_arg[NATT];  /* parity level handed to is_parity_matching at validation k */
 static const unsigned char *g_cmp_buf[4];
 static const struct snapraid_block *g_cmp_blk[4];
 
@@ -119,7 +120,8 @@ static int is_parity_matching(struct snapraid_state *state, unsigned diskmax, un
 __CPROVER_requires(g_valid_calls < NATT)
 __CPROVER_ensures(g_valid_calls == __CPROVER_old(g_valid_calls) + 1 && g_last_valid_kind == 2)
 __CPROVER_ensures(__CPROVER_return_value == (IN.verdict[__CPROVER_old(g_valid_calls)] != 0) && g_last_valid_result == (unsigned)__CPROVER_return_value)
-__CPROVER_assigns(g_valid_calls, g_last_valid_kind, g_last_valid_result);
+__CPROVER_ensures(g_valid_arg[__CPROVER_old(g_valid_calls)] == i)
+__CPROVER_assigns(g_valid_calls, g_last_valid_kind, g_last_valid_result, g_valid_arg[g_valid_calls]);
 
 
 static struct snapraid_state ST;
@@ -365,6 +367,13 @@ void h_repair_step(void)
 			for (l = 0; l < LEV_MAX; ++l)
 				if (l < g_data_r[k])
 					VERIF_ASSERT(g_data_ip[k][l] >= 0 && (unsigned)g_data_ip[k][l] < IN.level && recov[g_data_ip[k][l]] != 0, "repair_step only uses parities that could be read");
+			if (!has_hash) {
+				/* validation by a SPARE parity: readable, and not one of those the reconstruction was computed from */
+				VERIF_ASSERT(g_valid_arg[k] < IN.level && recov[g_valid_arg[k]] != 0, "the parity used for validation could be read");
+				for (l = 0; l < LEV_MAX; ++l)
+					if (l < g_data_r[k])
+						VERIF_ASSERT((unsigned)g_data_ip[k][l] != g_valid_arg[k], "a reconstruction is validated against a parity it was NOT computed from");
+			}
 		}
 	VERIF_CANARY();
 }
